@@ -6,3 +6,6 @@ from ..core import modules_for
 def run(ctx):
     q = ctx.tier == "quick"
     run_common(ctx, "C05", modules_for("C05"), l1_scripts=400 if q else 4000, stride=3 if q else 1, nops=25 if q else 60)
+    if not getattr(ctx, "replay", None):
+        from .. import gsm
+        gsm.run(ctx, "C05", 80 if q else 800)
